@@ -2,6 +2,7 @@
 use crate::common::*;
 use inputlayer::{Tuple, Value};
 use std::hash::{Hash, Hasher};
+use inputlayer::storage::persist::{consolidate, consolidate_to_current, Update};
 
 /// A hasher that records the exact byte stream it is fed, so "hash equally" is decided on the
 /// input of the hash function (the hash function itself is a parameter of the model).
@@ -58,10 +59,40 @@ pub fn gen(ctx: &mut Ctx) -> Vec<String> {
             out.push(format!("c31.triple {} {} {}", tuple_to_wire(&a), tuple_to_wire(&b), tuple_to_wire(&c)));
         }
     }
+    // consolidation histories: few distinct tuples (many collisions), awkward floats included
+    let n = ctx.budget(3000, 30000);
+    for i in 0..n {
+        let ar = 1 + ctx.below(2);
+        let ndist = 1 + ctx.below(4);
+        let specials = [Value::Float64(0.0), Value::Float64(-0.0), Value::Float64(f64::NAN), Value::Float64(1.0), Value::Int64(0), Value::Int32(0),
+                        Value::Vector(std::sync::Arc::new(vec![0.0])), Value::Vector(std::sync::Arc::new(vec![-0.0])), Value::Vector(std::sync::Arc::new(vec![f32::NAN]))];
+        let dist: Vec<Tuple> = (0..ndist).map(|_| Tuple::new((0..ar).map(|_| if ctx.chance(1, 2) { ctx.pick(&specials).clone() } else { random_value(ctx) }).collect())).collect();
+        let len = ctx.below(9);
+        let items: Vec<String> = (0..len).map(|_| { let t = ctx.pick(&dist).clone(); format!("{}@{}@{}", tuple_to_wire(&t), ctx.below(3), if ctx.chance(1, 2) { 1 } else { -1 }) }).collect();
+        out.push(format!("{} | {}", if i % 3 == 0 { "c31.cons2" } else { "c31.cons" }, items.join(" ; ")));
+        ctx.count("consolidate_histories");
+    }
     out
 }
 
+fn upd_of_wire(s: &str) -> Option<Update> {
+    let mut it = s.split('@');
+    let d = tuple_of_wire(it.next()?)?; let t: u64 = it.next()?.parse().ok()?; let k: i64 = it.next()?.parse().ok()?;
+    Some(Update { data: d, time: t, diff: k })
+}
+
+fn exec_cons(req: &str, both: bool) -> String {
+    let tail = req.split_once(" | ").map(|x| x.1).unwrap_or("");
+    let us: Option<Vec<Update>> = tail.split(" ; ").filter(|s| !s.trim().is_empty()).map(|s| upd_of_wire(s.trim())).collect();
+    let mut us = match us { Some(u) => u, None => return "bad-request".into() };
+    if both { consolidate(&mut us) } else { consolidate_to_current(&mut us) }
+    if us.is_empty() { return "{}".into(); }
+    us.iter().map(|u| format!("{}@{}@{}", tuple_to_wire(&u.data), u.time, u.diff)).collect::<Vec<_>>().join(";")
+}
+
 pub fn exec(req: &str) -> String {
+    if req.starts_with("c31.cons2") { return exec_cons(req, true); }
+    if req.starts_with("c31.cons") { return exec_cons(req, false); }
     let parts: Vec<&str> = req.split(' ').collect();
     let ts: Option<Vec<Tuple>> = parts[1..].iter().map(|s| tuple_of_wire(s)).collect();
     let ts = match ts { Some(t) => t, None => return "bad-request".into() };
